@@ -123,7 +123,7 @@ func getMetadataPair returns (mp, err)
 // ---------------------------------------------------------------------------------------------
 func ParseStreamCallback
   props C08 C09 C10
-  requires callback != nil
+  requires callback != nil && reader != nil
   modifies *
   modifies ghost(cbLen, cbErr, cbNode, cbStop, cbRet, cbLineNo, cbLine, cbHeader, cbElems, cbNElems, scRd, scPos, privLo, evOf)
   let rd := payload(reader)
@@ -415,6 +415,7 @@ func ParseStreamCallback variant chan
 // on Errors (if any), then Done.
 func (Parser).ParseStream
   props C18 C08
+  requires @reader reader != nil
   requires @distinct-channels p.Nodes != p.Errors && p.Nodes != p.Done && p.Errors != p.Done
   calluse ParseStreamCallback#1 chan
   modifies ghost(cbLen, cbErr, cbNode, cbStop, cbRet, cbLineNo, cbLine, cbHeader, cbElems, cbNElems, scRd, scPos, privLo, evOf, sendLen, sendChan, sendVal)
